@@ -21,7 +21,8 @@ type vScenario struct {
 func vPickScenario() (vScenario, vOp) {
 	readme := vReadmeOps()
 	abstract := vAbstractOps()
-	n := len(readme) + len(abstract)
+	twins := vTwinsOps()
+	n := len(readme) + len(abstract) + len(twins)
 	i := verifChoice("op", n)
 	if only := verifParam("onlyop", -1); only >= 0 {
 		verifAssume(i == only)
@@ -30,8 +31,14 @@ func vPickScenario() (vScenario, vOp) {
 		verifLog("op: " + readme[i].q)
 		return vScenario{[]string{vSA, vSB, vSC}, vReadmeWorld(vK), readme}, readme[i]
 	}
-	verifLog("op: " + abstract[i-len(readme)].q)
-	return vScenario{[]string{vSC1, vSC2}, vAbstractWorld(), abstract}, abstract[i-len(readme)]
+	i -= len(readme)
+	if i < len(abstract) {
+		verifLog("op: " + abstract[i].q)
+		return vScenario{[]string{vSC1, vSC2}, vAbstractWorld(), abstract}, abstract[i]
+	}
+	i -= len(abstract)
+	verifLog("op: " + twins[i].q)
+	return vScenario{[]string{vSE1, vSE2}, vTwinsWorld(), twins}, twins[i]
 }
 
 type vPair struct{ typ, field string }
